@@ -9,9 +9,10 @@ import (
 )
 
 type pin struct {
-	name  string
-	build func() *ctlref.Program
-	fault bool // additionally run the exhaustive fault sweep
+	name   string
+	build  func() *ctlref.Program
+	fault  bool // additionally run the exhaustive fault sweep
+	script bool // script mode only (completion-value witnesses)
 }
 
 func lg() *ctlref.Node { return &ctlref.Node{Kind: ctlref.Log} }
@@ -73,6 +74,40 @@ var pinned = []pin{
 		fault: true,
 		build: func() *ctlref.Program { return ctlref.Chain(mustKinds("genbody-driver", "tryCF", "forof")) },
 	},
+	{
+		// /verif/inbox/C08-uncatchable-during-iterator-close-in-handleThrow.md: an interrupt that becomes visible inside the
+		// iterator's return() while a *catchable* throw (from a destructuring target) is closing the iterator.
+		name:  "uncatchable fault inside return() while a thrown exception closes a destructured iterator",
+		fault: true,
+		build: func() *ctlref.Program {
+			p := &ctlref.Program{Main: []*ctlref.Node{
+				{Kind: ctlref.Try, HasCatch: true, CatchParam: true,
+					Stmts: []*ctlref.Node{{Kind: ctlref.Destruct, NElems: 3, Rest: true, At: 1, Iter: ctlref.Iter{N: 2, Ret: ctlref.RetOK}}}},
+			}}
+			p.Number()
+			return p
+		},
+	},
+}
+
+func init() {
+	// Known findings (known-findings.d/C08.json, inbox C08-completion-value-break-continue-KNOWN-FINDINGS.md): script-level
+	// completion value with a break / continue that is not a direct statement of its list.
+	blk := func(s ...*ctlref.Node) *ctlref.Node { return &ctlref.Node{Kind: ctlref.Block, Stmts: s} }
+	num := func(p *ctlref.Program) *ctlref.Program { p.Number(); return p }
+	pinned = append(pinned,
+		pin{name: "KNOWN D1: L: try { 3 } finally { { break L } }  evaluates to 3 (spec: undefined)", script: true, build: func() *ctlref.Program {
+			return num(&ctlref.Program{Main: []*ctlref.Node{{Kind: ctlref.Labelled, Label: "M1", Stmts: []*ctlref.Node{
+				{Kind: ctlref.Try, HasFinally: true, Stmts: []*ctlref.Node{lg()}, Finally: []*ctlref.Node{blk(&ctlref.Node{Kind: ctlref.Break, Label: "M1"})}}}}}})
+		}},
+		pin{name: "KNOWN D2: for (k in {a:1}) { 7; { continue; } 8 }  evaluates to undefined (spec: 7)", script: true, build: func() *ctlref.Program {
+			return num(&ctlref.Program{Main: []*ctlref.Node{{Kind: ctlref.ForIn, Trip: 1, Stmts: []*ctlref.Node{lg(), blk(&ctlref.Node{Kind: ctlref.Continue}), lg()}}}})
+		}},
+		pin{name: "KNOWN D3: do { if (second iteration) { break; } 4 } while (..)  evaluates to 4 (spec: undefined)", script: true, build: func() *ctlref.Program {
+			return num(&ctlref.Program{Main: []*ctlref.Node{{Kind: ctlref.DoWhile, Trip: 3, Stmts: []*ctlref.Node{
+				{Kind: ctlref.If, Cond: ctlref.Expr{Kind: ctlref.CCounterEq, D: 0, K: 2}, Stmts: []*ctlref.Node{{Kind: ctlref.Break}}}, lg()}}}})
+		}},
+	)
 }
 
 func mustKinds(names ...string) []int {
@@ -97,7 +132,7 @@ func runPinned(c *core.Ctx) core.Result {
 	prog := p.build()
 	res := core.Result{Verdict: core.Held, Key: "pinned:" + p.name, NonTrivial: true}
 	for mode := 0; mode < 2; mode++ {
-		if mode == ctlref.ModeGlobal && prog.HasReturn() {
+		if mode == ctlref.ModeGlobal && prog.HasReturn() || mode == ctlref.ModeFunction && p.script {
 			continue
 		}
 		in := &instance{prog: prog, v: ctlref.Variant{What: "base", Kind: "none"}, mode: mode, skel: "pinned:" + p.name}
